@@ -225,8 +225,10 @@ def depsBytes : List (List GapItem × Bytes) → Bytes
   | [] => []
   | (gs, n) :: rest => gapBytes gs ++ n ++ depsBytes rest
 
+/-- Names are non-empty runs of path bytes; every gap but the first is non-empty (the first may
+    be: `t :dep`). -/
 def DepsWF (deps : List (List GapItem × Bytes)) : Prop :=
-  ∀ d ∈ deps, d.1 ≠ [] ∧ d.2 ≠ [] ∧ ∀ c ∈ d.2, safe c
+  (∀ d ∈ deps, d.2 ≠ [] ∧ ∀ c ∈ d.2, safe c) ∧ (∀ d ∈ deps.tail, d.1 ≠ [])
 
 theorem readDeps_spec (buf : Array UInt8) (pf : Nat) (deps : List (List GapItem × Bytes)) : DepsWF deps →
     ∀ (trail : List GapItem) (e : UInt8) (r : Bytes) (fuel : Nat) (s : Scanner) (acc : List Bytes), G buf s →
@@ -249,7 +251,7 @@ theorem readDeps_spec (buf : Array UInt8) (pf : Nat) (deps : List (List GapItem 
   | cons d deps ih =>
     intro hwf trail e r fuel s acc g he hr hf hpf
     obtain ⟨gs, n⟩ := d
-    have hd := hwf (gs, n) (by simp)
+    have hd := hwf.1 (gs, n) (by simp)
     cases fuel with
     | zero => omega
     | succ fuel =>
@@ -263,15 +265,16 @@ theorem readDeps_spec (buf : Array UInt8) (pf : Nat) (deps : List (List GapItem 
           | cons t ts => exact term_gap (t :: ts) _ (by simp)
         | cons d2 deps2 =>
           obtain ⟨gs2, n2⟩ := d2
-          have := (hwf (gs2, n2) (by simp)).1
+          have := hwf.2 (gs2, n2) (by simp)
           simp only [depsBytes, List.append_assoc]
           exact term_gap gs2 _ this
-      obtain ⟨s1, h1, g1, ho1, hr1⟩ := readPath_some buf gs n _ hd.2.1 hd.2.2 pf s g
+      obtain ⟨s1, h1, g1, ho1, hr1⟩ := readPath_some buf gs n _ hd.1 hd.2 pf s g
         (by simpa [List.append_assoc] using hr) hterm hpf
-      have hpos : 0 < n.length := by cases n with | nil => exact absurd rfl hd.2.1 | cons _ _ => simp
+      have hpos : 0 < n.length := by cases n with | nil => exact absurd rfl hd.1 | cons _ _ => simp
       have hlt := g.lt
       have hlt1 := g1.lt
-      obtain ⟨s', h', g', ho', hr'⟩ := ih (fun x hx => hwf x (by simp [hx])) trail e r fuel s1 (acc ++ [n]) g1 he hr1
+      obtain ⟨s', h', g', ho', hr'⟩ := ih ⟨fun x hx => hwf.1 x (by simp [hx]), fun x hx => hwf.2 x (by
+          simp only [List.tail_cons]; exact List.mem_of_mem_tail hx)⟩ trail e r fuel s1 (acc ++ [n]) g1 he hr1
         (by omega) (by omega)
       refine ⟨s', ?_, g', by omega, hr'⟩
       unfold readDeps
@@ -279,5 +282,391 @@ theorem readDeps_spec (buf : Array UInt8) (pf : Nat) (deps : List (List GapItem 
       simp only []
       rw [h']
       simp [List.append_assoc]
+
+
+/-- Blank space between entries: spaces and newlines. -/
+def blankOk (b : Bytes) : Prop := ∀ c ∈ b, c = SP ∨ c = NL
+
+theorem skipBlank_spec (buf : Array UInt8) (blank : Bytes) : blankOk blank → ∀ (fuel : Nat) (s : Scanner) (c : UInt8)
+    (r : Bytes), G buf s → Rest buf s.ofs (blank ++ c :: r) → c ≠ SP → c ≠ NL → buf.size - s.ofs < fuel →
+    ∃ s', skipBlank fuel s = .ok () s' ∧ G buf s' ∧ s'.ofs = s.ofs + blank.length := by
+  induction blank with
+  | nil =>
+    intro _ fuel s c r g hr hsp hnl hf
+    cases fuel with
+    | zero => omega
+    | succ fuel =>
+      obtain ⟨c', hc, hp⟩ := peek_ok g.w g.lt
+      have hcc : c' = c := by
+        have h0 : buf[s.ofs]? = some c := hr.head
+        rw [hc] at h0; exact Option.some.inj h0
+      subst hcc
+      refine ⟨s, ?_, g, by simp⟩
+      unfold skipBlank
+      rw [hp]
+      have : (c' == SP || c' == NL) = false := by simp [hsp, hnl]
+      simp only [this, Bool.false_eq_true, if_false]
+  | cons b blank ih =>
+    intro hb fuel s c r g hr hsp hnl hf
+    have hlt := g.lt
+    have hb0 := hb b (by simp)
+    cases fuel with
+    | zero => omega
+    | succ fuel =>
+      simp only [List.cons_append] at hr
+      obtain ⟨c', hc, hp⟩ := peek_ok g.w g.lt
+      have hcc : c' = b := by rw [hr.head] at hc; exact (Option.some.inj hc).symm
+      subst hcc
+      obtain ⟨c2, s1, hc2, hnx, w1, ho, hn⟩ := next_ok g.w g.lt
+      have hcc2 : c2 = c' := by rw [hc] at hc2; exact (Option.some.inj hc2).symm
+      subst hcc2
+      have hcn : c2 ≠ NUL := by rcases hb0 with h | h <;> subst h <;> decide
+      have hcr : c2 ≠ CR := by rcases hb0 with h | h <;> subst h <;> decide
+      have g1 : G buf s1 := ⟨w1, hn hcn, by rw [ho]; exact ncr_after hc hcr⟩
+      obtain ⟨s', h', g', ho'⟩ := ih (fun x hx => hb x (by simp [hx])) fuel s1 c r g1 (by rw [ho]; exact hr.tail) hsp hnl (by omega)
+      refine ⟨s', ?_, g', by simp [ho', ho]; omega⟩
+      unfold skipBlank
+      rw [hp]
+      have : (c2 == SP || c2 == NL) = true := by rcases hb0 with h | h <;> subst h <;> decide
+      simp only [this, if_true]
+      rw [hnx]
+      exact h'
+
+/-- The scanner's own `skip_spaces` over a run of spaces. -/
+theorem scanner_skipSpaces_spec (buf : Array UInt8) (a : Nat) : ∀ (fuel : Nat) (s : Scanner) (c : UInt8) (r : Bytes),
+    G buf s → Rest buf s.ofs (List.replicate a SP ++ c :: r) → c ≠ SP → buf.size - s.ofs < fuel →
+    ∃ s', Scanner.skipSpaces fuel s = .ok s' ∧ G buf s' ∧ s'.ofs = s.ofs + a := by
+  induction a with
+  | zero =>
+    intro fuel s c r g hr hsp hf
+    cases fuel with
+    | zero => omega
+    | succ fuel =>
+      obtain ⟨c', s1, hc, hrd, w1, ho, hn⟩ := read_ok g.w g.lt
+      have hcc : c' = c := by
+        have h0 : buf[s.ofs]? = some c := hr.head
+        rw [hc] at h0; exact Option.some.inj h0
+      subst hcc
+      obtain ⟨s', hb, g', ho'⟩ := back_after_read g w1 ho
+      refine ⟨s', ?_, g', by omega⟩
+      unfold Scanner.skipSpaces skip
+      rw [hrd]
+      have : (c' != SP) = true := by simpa using hsp
+      simp only [this, if_true]
+      rw [hb]
+  | succ a ih =>
+    intro fuel s c r g hr hsp hf
+    have hlt := g.lt
+    cases fuel with
+    | zero => omega
+    | succ fuel =>
+      simp only [List.replicate_succ, List.cons_append] at hr
+      obtain ⟨c', s1, hc, hrd, w1, ho, hn⟩ := read_ok g.w g.lt
+      have hcc : c' = SP := by rw [hr.head] at hc; exact (Option.some.inj hc).symm
+      subst hcc
+      have g1 : G buf s1 := ⟨w1, hn (by decide), by rw [ho]; exact ncr_after hc (by decide)⟩
+      obtain ⟨s', h', g', ho'⟩ := ih fuel s1 c r g1 (by rw [ho]; exact hr.tail) hsp (by omega)
+      refine ⟨s', ?_, g', by omega⟩
+      unfold Scanner.skipSpaces skip
+      rw [hrd]
+      simp only [bne_self_eq_false, Bool.false_eq_true, if_false]
+      exact h'
+
+
+/-! ### Whole depfiles -/
+
+def leadSp : List GapItem → Nat
+  | .sp :: g => leadSp g + 1
+  | _ => 0
+
+def dropSp : List GapItem → List GapItem
+  | .sp :: g => dropSp g
+  | g => g
+
+theorem gapBytes_split (gs : List GapItem) :
+    gapBytes gs = List.replicate (leadSp gs) SP ++ gapBytes (dropSp gs) := by
+  induction gs with
+  | nil => rfl
+  | cons gi gs ih =>
+    cases gi with
+    | sp => simp [gapBytes, leadSp, dropSp, ih, List.replicate_succ]
+    | cont => simp [gapBytes, leadSp, dropSp]
+
+theorem dropSp_head (gs : List GapItem) (c : UInt8) (x : Bytes) (hc : c ≠ SP) :
+    ∃ c' x', gapBytes (dropSp gs) ++ c :: x = c' :: x' ∧ c' ≠ SP := by
+  induction gs with
+  | nil => exact ⟨c, x, rfl, hc⟩
+  | cons gi gs ih =>
+    cases gi with
+    | sp => exact ih
+    | cont => exact ⟨BSL, _, rfl, by decide⟩
+
+/-- One entry as written: `target`, spaces, `:`, prerequisites each after a gap, trailing gap. -/
+structure FEntry where
+  blank : Bytes                       -- blank space (spaces, newlines) before the entry
+  target : Bytes
+  colonSp : Nat                       -- spaces between the target and the colon (0: `t:`)
+  deps : List (List GapItem × Bytes)
+  trail : List GapItem
+
+def EntryWF (e : FEntry) : Prop :=
+  blankOk e.blank ∧ e.target ≠ [] ∧ (∀ c ∈ e.target, safe c) ∧
+  (0 < e.colonSp → e.target.getLast? ≠ some COLON) ∧ DepsWF e.deps ∧
+  (e.colonSp = 0 → ∀ d ∈ e.deps.head?, d.1 ≠ [])
+
+def entryCore (e : FEntry) : Bytes :=
+  e.target ++ List.replicate e.colonSp SP ++ [COLON] ++ depsBytes e.deps ++ gapBytes e.trail
+
+def bodyBytes : List FEntry → Bytes → Bytes
+  | [], tail => tail
+  | e :: es, tail => e.blank ++ entryCore e ++ NL :: bodyBytes es tail
+
+theorem bodyBytes_append (es : List FEntry) (a b : Bytes) : bodyBytes es a ++ b = bodyBytes es (a ++ b) := by
+  induction es with
+  | nil => rfl
+  | cons e es ih => simp [bodyBytes, ih, List.append_assoc]
+
+def entriesOf (es : List FEntry) : Entries := es.map (fun e => (e.target, e.deps.map (·.2)))
+
+theorem stripColon_glued (t : Bytes) : stripColon (t ++ [COLON]) = some t := by
+  unfold stripColon
+  simp
+
+theorem stripColon_none (t : Bytes) (h : t.getLast? ≠ some COLON) : stripColon t = none := by
+  unfold stripColon
+  have : (t.getLast? == some COLON) = false := by simpa using h
+  simp [this]
+
+theorem colon_safe : safe COLON := by refine ⟨?_, ?_, ?_, ?_, ?_⟩ <;> decide
+
+/-- The prerequisites, the trailing gap and the newline of one entry. -/
+theorem deps_then_nl (buf : Array UInt8) (pf : Nat) (deps : List (List GapItem × Bytes)) (hwf : DepsWF deps)
+    (trail : List GapItem) (r : Bytes) (s : Scanner) (acc : List Bytes) (g : G buf s)
+    (hr : Rest buf s.ofs (depsBytes deps ++ gapBytes trail ++ NL :: r)) (hpf : buf.size - s.ofs < pf) :
+    ∃ s', readDeps pf pf s acc = .ok (acc ++ deps.map (·.2)) s' ∧ G buf s' ∧ s.ofs ≤ s'.ofs ∧
+      Rest buf s'.ofs (NL :: r) :=
+  readDeps_spec buf pf deps hwf trail NL r pf s acc g (Or.inl rfl) hr hpf hpf
+
+theorem parseLoop_spec (buf : Array UInt8) (pf : Nat) (hpf : buf.size < pf) (eb : Bytes) (heb : blankOk eb)
+    (es : List FEntry) : (∀ e ∈ es, EntryWF e) → ∀ (fuel : Nat) (s : Scanner) (acc : Entries) (pre : Bytes),
+    blankOk pre → G buf s → Rest buf s.ofs (pre ++ bodyBytes es (eb ++ [NUL])) → buf.size - s.ofs < fuel →
+    ∃ s', parseLoop fuel pf s acc = .ok ((entriesOf es).foldl (fun a e => addEntry a e.1 e.2) acc) s' ∧
+      G buf s' ∧ Rest buf s'.ofs [NUL] := by
+  induction es with
+  | nil =>
+    intro _ fuel s acc pre hpre g hr hf
+    cases fuel with
+    | zero => omega
+    | succ fuel =>
+      simp only [bodyBytes] at hr
+      have hb : blankOk (pre ++ eb) := by
+        intro c hc; simp at hc; rcases hc with h | h
+        · exact hpre c h
+        · exact heb c h
+      have hlt := g.lt
+      obtain ⟨s1, h1, g1, ho1⟩ := skipBlank_spec buf (pre ++ eb) hb pf s NUL [] g (by simpa [List.append_assoc] using hr)
+        (by decide) (by decide) (by omega)
+      have hr1 : Rest buf s1.ofs ([] ++ NUL :: []) := by
+        rw [ho1]; exact Rest.append (a := pre ++ eb) (by simpa [List.append_assoc] using hr)
+      obtain ⟨s2, h2, g2, ho2, hr2⟩ := readPath_none buf [] NUL [] (Or.inr rfl) pf s1 g1 hr1 (by have := g1.lt; omega)
+      refine ⟨s2, ?_, g2, hr2⟩
+      unfold parseLoop
+      rw [h1]
+      simp only []
+      rw [h2]
+      simp [entriesOf]
+  | cons e es ih =>
+    intro hwf fuel s acc pre hpre g hr hf
+    obtain ⟨hbl, htn, hts, hcol, hdw, hglued⟩ := hwf e (by simp)
+    have hlt := g.lt
+    cases fuel with
+    | zero => omega
+    | succ fuel =>
+      obtain ⟨c0, t', htc⟩ : ∃ c0 t', e.target = c0 :: t' := by
+        cases h : e.target with
+        | nil => exact absurd h htn
+        | cons c0 t' => exact ⟨c0, t', rfl⟩
+      have hc0 := hts c0 (by rw [htc]; simp)
+      -- everything after the blank prefix
+      have hb : blankOk (pre ++ e.blank) := by
+        intro c hc; simp at hc; rcases hc with h | h
+        · exact hpre c h
+        · exact hbl c h
+      simp only [bodyBytes] at hr
+      have hr0 : Rest buf s.ofs ((pre ++ e.blank) ++ c0 :: (t' ++ List.replicate e.colonSp SP ++ [COLON] ++
+          depsBytes e.deps ++ gapBytes e.trail ++ NL :: bodyBytes es (eb ++ [NUL]))) := by
+        simpa [entryCore, htc, List.append_assoc] using hr
+      obtain ⟨s1, h1, g1, ho1⟩ := skipBlank_spec buf (pre ++ e.blank) hb pf s c0 _ g hr0 hc0.2.1 hc0.2.2.1 (by omega)
+      have hr1 := Rest.append (a := pre ++ e.blank) hr0
+      rw [← ho1] at hr1
+      have hlt1 := g1.lt
+      -- the continuation after the colon is the same in both spellings
+      by_cases hcs : e.colonSp = 0
+      · -- `target:` glued: the token read is `target:`
+        have htok : ∀ c ∈ e.target ++ [COLON], safe c := by
+          intro c hc; simp at hc; rcases hc with h | h
+          · exact hts c h
+          · subst h; exact colon_safe
+        have hrest : Rest buf s1.ofs (gapBytes [] ++ (e.target ++ [COLON]) ++
+            (depsBytes e.deps ++ gapBytes e.trail ++ NL :: bodyBytes es (eb ++ [NUL]))) := by
+          simpa [gapBytes, htc, hcs, List.append_assoc] using hr1
+        have hterm : Term (depsBytes e.deps ++ gapBytes e.trail ++ NL :: bodyBytes es (eb ++ [NUL])) := by
+          cases hd : e.deps with
+          | nil =>
+            simp only [depsBytes, List.nil_append]
+            cases e.trail with
+            | nil => simp [gapBytes, Term]
+            | cons t ts => exact term_gap (t :: ts) _ (by simp)
+          | cons d ds =>
+            obtain ⟨gs, n⟩ := d
+            have := hglued hcs (gs, n) (by rw [hd]; simp)
+            simp only [depsBytes, List.append_assoc]
+            exact term_gap gs _ this
+        obtain ⟨s2, h2, g2, ho2, hr2⟩ := readPath_some buf [] (e.target ++ [COLON]) _ (by simp) htok pf s1 g1 hrest hterm
+          (by omega)
+        -- the scanner's skip_spaces eats the leading spaces of what follows
+        have hlt2 := g2.lt
+        obtain ⟨k, deps', trail', hsplit, hhead, hwf', hnames⟩ :
+            ∃ (k : Nat) (deps' : List (List GapItem × Bytes)) (trail' : List GapItem),
+              depsBytes e.deps ++ gapBytes e.trail = List.replicate k SP ++ (depsBytes deps' ++ gapBytes trail') ∧
+              (∃ c' x', depsBytes deps' ++ gapBytes trail' ++ NL :: bodyBytes es (eb ++ [NUL]) = c' :: x' ∧ c' ≠ SP) ∧
+              DepsWF deps' ∧ deps'.map (·.2) = e.deps.map (·.2) := by
+          cases hd : e.deps with
+          | nil =>
+            refine ⟨leadSp e.trail, [], dropSp e.trail, by simp [depsBytes, gapBytes_split e.trail], ?_, ⟨by simp, by simp⟩, rfl⟩
+            simpa [depsBytes] using dropSp_head e.trail NL (bodyBytes es (eb ++ [NUL])) (by decide)
+          | cons d ds =>
+            obtain ⟨gs, n⟩ := d
+            have hdn := hdw.1 (gs, n) (by rw [hd]; simp)
+            obtain ⟨cn, n', hn⟩ : ∃ cn n', n = cn :: n' := by
+              cases n with
+              | nil => exact absurd rfl hdn.1
+              | cons cn n' => exact ⟨cn, n', rfl⟩
+            refine ⟨leadSp gs, (dropSp gs, n) :: ds, e.trail, ?_, ?_, ?_, by simp⟩
+            · simp only [depsBytes, List.append_assoc]
+              rw [gapBytes_split gs]; simp [List.append_assoc]
+            · have hcn : cn ≠ SP := (hdn.2 cn (by rw [hn]; simp)).2.1
+              obtain ⟨c', x', he, hne⟩ := dropSp_head gs cn (n' ++ (depsBytes ds ++ gapBytes e.trail ++ NL :: bodyBytes es (eb ++ [NUL]))) hcn
+              exact ⟨c', x', by simpa [depsBytes, hn, List.append_assoc] using he, hne⟩
+            · rw [hd] at hdw
+              exact ⟨fun x hx => by
+                simp at hx; rcases hx with rfl | hx
+                · exact hdn
+                · exact hdw.1 x (by simp [hx]), fun x hx => hdw.2 x (by simpa using hx)⟩
+        obtain ⟨c', x', hcx, hcne⟩ := hhead
+        have hr2' : Rest buf s2.ofs (List.replicate k SP ++ c' :: x') := by
+          have : depsBytes e.deps ++ gapBytes e.trail ++ NL :: bodyBytes es (eb ++ [NUL])
+              = List.replicate k SP ++ (depsBytes deps' ++ gapBytes trail' ++ NL :: bodyBytes es (eb ++ [NUL])) := by
+            rw [hsplit]; simp [List.append_assoc]
+          rw [this, hcx] at hr2; exact hr2
+        obtain ⟨s3, h3, g3, ho3⟩ := scanner_skipSpaces_spec buf k pf s2 c' x' g2 hr2' hcne (by omega)
+        have hr3 : Rest buf s3.ofs (depsBytes deps' ++ gapBytes trail' ++ NL :: bodyBytes es (eb ++ [NUL])) := by
+          have := Rest.append (a := List.replicate k SP) hr2'
+          rw [hcx.symm] at this
+          rw [ho3]; simpa using this
+        have hlt3 := g3.lt
+        obtain ⟨s5, h5, g5, hle5, hr5⟩ := deps_then_nl buf pf deps' hwf' trail' _ s3 [] g3 hr3 (by omega)
+        have hpos : 0 < (e.target ++ [COLON]).length := by simp
+        obtain ⟨s', h', g', hr'⟩ := ih (fun x hx => hwf x (by simp [hx])) fuel s5
+          (addEntry acc e.target (e.deps.map (·.2))) [NL] (by intro c hc; simp at hc; exact Or.inr hc) g5
+          (by simpa using hr5) (by simp [gapBytes] at ho2; omega)
+        refine ⟨s', ?_, g', hr'⟩
+        unfold parseLoop
+        rw [h1]
+        simp only []
+        rw [h2]
+        simp only []
+        rw [h3]
+        simp only [stripColon_glued]
+        rw [h5]
+        simp only [List.nil_append, hnames]
+        rw [h']
+        simp [entriesOf]
+      · -- spaces before the colon: the token read is `target`
+        have hcpos : 0 < e.colonSp := by omega
+        have hrest : Rest buf s1.ofs (gapBytes [] ++ e.target ++
+            (List.replicate e.colonSp SP ++ COLON :: (depsBytes e.deps ++ gapBytes e.trail ++
+              NL :: bodyBytes es (eb ++ [NUL])))) := by
+          simpa [gapBytes, htc, List.append_assoc] using hr1
+        have hterm : Term (List.replicate e.colonSp SP ++ COLON :: (depsBytes e.deps ++ gapBytes e.trail ++
+              NL :: bodyBytes es (eb ++ [NUL]))) := by
+          obtain ⟨j, hj⟩ : ∃ j, e.colonSp = j + 1 := ⟨e.colonSp - 1, by omega⟩
+          rw [hj]; simp [List.replicate_succ, Term]
+        obtain ⟨s2, h2, g2, ho2, hr2⟩ := readPath_some buf [] e.target _ htn hts pf s1 g1 hrest hterm (by omega)
+        have hlt2 := g2.lt
+        obtain ⟨s3, h3, g3, ho3⟩ := scanner_skipSpaces_spec buf e.colonSp pf s2 COLON _ g2 hr2 (by decide) (by omega)
+        have hr3 := Rest.append (a := List.replicate e.colonSp SP) hr2
+        rw [List.length_replicate, ← ho3] at hr3
+        -- expect ':'
+        obtain ⟨c4, s4, hc4, hrd4, w4, ho4, hn4⟩ := read_ok g3.w g3.lt
+        have hc4e : c4 = COLON := by rw [hr3.head] at hc4; exact (Option.some.inj hc4).symm
+        subst hc4e
+        have g4 : G buf s4 := ⟨w4, hn4 (by decide), by rw [ho4]; exact ncr_after hc4 (by decide)⟩
+        have hex : s3.expect COLON = .ok () s4 := by
+          unfold expect; rw [hrd4]; simp
+        have hr4 : Rest buf s4.ofs (depsBytes e.deps ++ gapBytes e.trail ++ NL :: bodyBytes es (eb ++ [NUL])) := by
+          rw [ho4]; exact hr3.tail
+        have hlt4 := g4.lt
+        obtain ⟨s5, h5, g5, hle5, hr5⟩ := deps_then_nl buf pf e.deps hdw e.trail _ s4 [] g4 hr4 (by omega)
+        have hpos : 0 < e.target.length := by rw [htc]; simp
+        obtain ⟨s', h', g', hr'⟩ := ih (fun x hx => hwf x (by simp [hx])) fuel s5
+          (addEntry acc e.target (e.deps.map (·.2))) [NL] (by intro c hc; simp at hc; exact Or.inr hc) g5
+          (by simpa using hr5) (by simp [gapBytes] at ho2; omega)
+        refine ⟨s', ?_, g', hr'⟩
+        unfold parseLoop
+        rw [h1]
+        simp only []
+        rw [h2]
+        simp only []
+        rw [h3]
+        simp only [stripColon_none e.target (hcol hcpos)]
+        rw [hex]
+        simp only []
+        rw [h5]
+        simp only [List.nil_append]
+        rw [h']
+        simp [entriesOf]
+
+
+/-- **`depfile::parse` reads a depfile as the compiler wrote it**: for every list of entries
+    `target: prereq ...` — any number of them, targets and prerequisites any non-empty runs of path
+    bytes (colons and other punctuation included), any number of spaces before the colon, any gap
+    of spaces and backslash-newline continuations before each prerequisite and after the last one,
+    any blank space (spaces, empty lines) before, between and after the entries — the parser
+    returns exactly those targets with exactly those prerequisites, in order (repeated targets
+    merged by `addEntry`). -/
+theorem parse_spec (es : List FEntry) (hwf : ∀ e ∈ es, EntryWF e) (eb : Bytes) (heb : blankOk eb) :
+    ∃ s, parse (bodyBytes es eb) =
+      .ok ((entriesOf es).foldl (fun a e => addEntry a e.1 e.2) []) s := by
+  unfold parse
+  simp only []
+  have hbuf : bodyBytes es eb ++ [NUL] = bodyBytes es (eb ++ [NUL]) := bodyBytes_append es eb [NUL]
+  have hsz : (bodyBytes es eb ++ [NUL]).toArray.size = (bodyBytes es eb).length + 1 := by simp
+  have hlast : (bodyBytes es eb ++ [NUL]).toArray[(bodyBytes es eb ++ [NUL]).toArray.size - 1]? = some NUL := by
+    rw [hsz]; simp
+  have hnew : Scanner.new (bodyBytes es eb ++ [NUL]).toArray = .ok ⟨(bodyBytes es eb ++ [NUL]).toArray, 0, 1⟩ := by
+    unfold Scanner.new
+    have : (bodyBytes es eb ++ [NUL]).toArray.back? = some NUL := by rw [Array.back?]; exact hlast
+    simp [this]
+  rw [hnew]
+  simp only []
+  have g0 : G (bodyBytes es eb ++ [NUL]).toArray ⟨(bodyBytes es eb ++ [NUL]).toArray, 0, 1⟩ :=
+    ⟨⟨rfl, by rw [hsz]; omega, hlast, by show 0 ≤ _; omega, rfl⟩, by show 0 < _; rw [hsz]; omega,
+     fun hx => by have := hx.2.1; exact absurd this (by show ¬ 0 < 0; omega)⟩
+  have hr0 : Rest (bodyBytes es eb ++ [NUL]).toArray 0 ([] ++ bodyBytes es (eb ++ [NUL])) := by
+    rw [List.nil_append, ← hbuf]; exact rest_start _
+  obtain ⟨s1, h1, g1, hr1⟩ := parseLoop_spec (bodyBytes es eb ++ [NUL]).toArray
+    ((bodyBytes es eb ++ [NUL]).toArray.size + 1) (by omega) eb heb es hwf
+    ((bodyBytes es eb ++ [NUL]).toArray.size + 1) ⟨(bodyBytes es eb ++ [NUL]).toArray, 0, 1⟩ [] []
+    (by intro c hc; cases hc) g0 hr0 (by show _ - 0 < _; omega)
+  rw [h1]
+  simp only []
+  obtain ⟨c, s2, hc, hrd, w2, ho, hn⟩ := read_ok g1.w g1.lt
+  have hcn : c = NUL := by rw [hr1.head] at hc; exact (Option.some.inj hc).symm
+  subst hcn
+  have hex : s1.expect NUL = .ok () s2 := by
+    unfold expect; rw [hrd]; simp
+  rw [hex]
+  exact ⟨s2, rfl⟩
 
 end N2V.Depfile
